@@ -1,7 +1,7 @@
 (* C15 - built models are complete, acyclic, uniquely named, frozen, and round-trip. *)
 From Coq Require Import List Arith Bool String.
 Import ListNotations.
-From LV Require Import Graph.Build Graph.BuildProofs.
+From LV Require Import Graph.Build Graph.BuildProofs Graph.BuildNames.
 Open Scope list_scope.
 
 (* the worklist of GraphBuilder._all_nodes_and_vars returns exactly the nodes reachable from the added
@@ -23,15 +23,27 @@ Example C15_closure_example : closure ex_seeded [] [0] = Some ([2; 1; 0], [0]).
 Proof. exact closure_example. Qed.
 
 (* _set_missing_names: the name search always terminates with a free name, and afterwards no node and no
-   variable of the closure is unnamed.  (partial: that the nodes added later by build_model - model and
-   seed nodes - keep this up to the final closure is covered by the correspondence, not proved) *)
-Theorem C15_names_nonempty_partial : forall proxy_fix w ns vs,
+   variable of the closure is unnamed *)
+Theorem C15_set_missing_names_nonempty : forall proxy_fix w ns vs,
   set_missing_names proxy_fix w ns vs <> None /\
   forall w', set_missing_names proxy_fix w ns vs = Some w' ->
     (forall n, In n ns -> n < List.length (w_nodes w) -> name_of w' n <> ""%string) /\
     (forall v, In v vs -> v < List.length (w_vars w) -> vname_of w' v <> ""%string).
 Proof. intros pf w ns vs. split; [apply set_missing_names_total|apply set_missing_names_nonempty]. Qed.
-Print Assumptions C15_names_nonempty_partial.
+Print Assumptions C15_set_missing_names_nonempty.
+
+(* full strength, through the WHOLE build (auto-transform, naming, the three model nodes, the seed nodes, the
+   final closure, Model.__init__), for every world, every code variant, copy=False and copy=True and every
+   topological-sort oracle: the node names of an accepted build are pairwise distinct, so are the variable
+   names, and every node / variable of the model that exists in the world has a non-empty name *)
+Theorem C15_names_unique_nonempty : forall strip check_first proxy_fix topo copy w rn rv w' m,
+  build strip check_first proxy_fix topo copy w rn rv = (w', Ok m) ->
+  let wv := copied_world copy w' m in
+  NoDup (map (name_of wv) (m_nodes m)) /\ NoDup (map (vname_of wv) (m_vars m)) /\
+  (forall i, In i (m_nodes m) -> i < List.length (w_nodes wv) -> name_of wv i <> ""%string) /\
+  (forall v, In v (m_vars m) -> v < List.length (w_vars wv) -> vname_of wv v <> ""%string).
+Proof. exact build_names_unique_nonempty. Qed.
+Print Assumptions C15_names_unique_nonempty.
 
 Theorem C15_fresh_name_is_free : forall pre c other c' nm,
   fresh pre c other = Some (c', nm) -> ~ In nm other /\ (pre <> ""%string -> nm <> ""%string).
@@ -314,3 +326,42 @@ Theorem C15_auto_flag_left_on_original_refuted :
     snd (transform_default (setv w1 v (set_auto true)) v) = Err BadTransform.
 Proof. exact auto_flag_left_on_original_refuted. Qed.
 Print Assumptions C15_auto_flag_left_on_original_refuted.
+
+(* pop + rebuild, general part of the round-trip law.  For EVERY accepted build (copy=False; any variant, any
+   oracle) whose model objects exist in the world and whose variables carry no pending auto_transform flag
+   (both hold after build on well-formed worlds; satisfiable: C15_rebuild_hyps_example): in the popped world,
+   the closure of the second build - before and after the stale seed inputs are removed - stays inside the
+   first model, names are untouched, the auto-transform step and _set_missing_names are the identity.  So
+   every node and variable enters the second Model.__init__ under exactly the name the first build gave it.
+   (partial: not proved in general - that this closure is ALL of the first model except its three model nodes
+   and its fresh seed nodes, that the re-created model / seed nodes get the same names and inputs, and that
+   Model.__init__ accepts again under a sound and complete order oracle; these are certified per case by the
+   correspondence and on the instances below) *)
+Theorem C15_pop_rebuild_names_stable_partial : forall strip check_first proxy_fix topo w rn rv w' m,
+  build strip check_first proxy_fix topo false w rn rv = (w', Ok m) ->
+  (forall i, In i (m_nodes m) -> i < List.length (w_nodes w')) ->
+  (forall v, In v (m_vars m) -> v < List.length (w_vars w')) ->
+  (forall v, In v (m_vars m) -> is_auto w' v = false) ->
+  let w2 := pop w' m in
+  let rn2 := popped_nodes w' m in
+  exists ns0 vs0 ns1 vs1,
+    closure w2 rn2 (m_vars m) = Some (ns0, vs0) /\
+    let w3 := strip_seeds w2 ns0 in
+    closure w3 rn2 (m_vars m) = Some (ns1, vs1) /\
+    incl ns1 (m_nodes m) /\ incl vs1 (m_vars m) /\
+    (forall i, name_of w3 i = name_of w' i) /\ (forall v, vname_of w3 v = vname_of w' v) /\
+    auto_transform_all w3 vs1 = (w3, Ok tt) /\
+    set_missing_names proxy_fix w3 ns1 vs1 = Some w3.
+Proof. exact pop_rebuild_names_stable. Qed.
+Print Assumptions C15_pop_rebuild_names_stable_partial.
+
+Theorem C15_set_missing_names_fixpoint : forall proxy_fix w ns vs,
+  (forall n, In n ns -> name_of w n <> ""%string) -> (forall v, In v vs -> vname_of w v <> ""%string) ->
+  set_missing_names proxy_fix w ns vs = Some w.
+Proof. exact set_missing_names_fix. Qed.
+Print Assumptions C15_set_missing_names_fixpoint.
+
+Example C15_rebuild_hyps_example :
+  (match build true true true naive_topo false ex_seeded [] [0] with (w', Ok m) => rebuild_hyps w' m | _ => false end) = true /\
+  (match build true true true naive_topo false ex_auto [] [0] with (w', Ok m) => rebuild_hyps w' m | _ => false end) = true.
+Proof. exact rebuild_hyps_example. Qed.
